@@ -237,6 +237,13 @@ Theorem C09_vector_names_dispatch : forall (FO : FloatOps),
 Proof. intro FO. exact (conj vector_names_dispatch repaired_bindings). Qed.
 Print Assumptions C09_vector_names_dispatch.
 
+(* the outcome of a vector instruction does not depend on the build profile (on the pinned tree
+   offset arithmetic, INTVECTOR.+ - SUM MEAN panicked in debug builds and wrapped in release builds) *)
+Theorem C09_profile_independent : forall (FO : FloatOps),
+  Forall (fun e => forall w s, snd e Debug w s = snd e Release w s) vector_table.
+Proof. exact @vector_profile_independent. Qed.
+Print Assumptions C09_profile_independent.
+
 (* ---- non-vacuity ---- *)
 (* unequal lengths, negative offset: INT[10,20] + INT[1,2,3] at offset -1 *)
 Example C09_nonvacuous_overlay :
